@@ -41,7 +41,7 @@ def judge(ctx):
     ctx.sample = {"spec": spec, "sequences": len(sat_set)}
 
 
-CFG = G.cfg(blocks=("cross", "cross", "multi"))
+CFG = G.cfg(blocks=("cross", "cross", "multi", "repeat", "merge", "nest"))
 P = D.DesignProperty(
     "C07", judge,
     rule=("case = generated design spec accepted by the constructor and by both samplers; both are exhausted; non-trivial = "
